@@ -1,6 +1,6 @@
 (* Property C20 — HTML views are well-formed and never let data break out of its text position.
    Only statements and [exact]; proofs live in Proofs/Html*.v. *)
-From PG Require Import Common.Tactics Model.Html Proofs.HtmlProofs.
+From PG Require Import Common.Tactics Model.Html Proofs.HtmlProofs Proofs.HtmlTreeView.
 From Coq Require Import NArith.
 Local Open Scope N_scope.
 
@@ -38,3 +38,39 @@ Theorem C20_raw_key_refuted :
   parse_html (render (El s_span [] [] [Txt s_k_i_closed])) = Some [El s_span [] [] [Txt s_k_i_closed]].
 Proof. exact (conj raw_key_malformed (conj raw_key_injects escaped_key_is_text)). Qed.
 Print Assumptions C20_raw_key_refuted.
+
+(* The tree view: for every value (whatever strings its keys, leaves, type names, reprs and tooltips are) and every option
+   record, the rendered string parses, strictly, back to the tree that was built ... *)
+Theorem C20_tree_view_well_formed : forall o v, parse_html (render (tree_view o v)) = Some (normalize [tree_view o v]).
+Proof. intros o v. exact (render_parse _ (tree_view_names_ok o v)). Qed.
+Print Assumptions C20_tree_view_well_formed.
+
+(* ... and the parsed document contains only elements, options and attributes of the view's own fixed vocabulary:
+   no value can introduce an element, an attribute or a script. *)
+Theorem C20_no_injection : forall o v,
+  exists d, parse_html (render (tree_view o v)) = Some d /\
+            forall n, In n d ->
+              incl (tags_of n) vocabulary_tags /\ incl (optnames_of n) vocabulary_opts /\ incl (attrnames_of n) vocabulary_attrs.
+Proof. exact tree_view_no_injection. Qed.
+Print Assumptions C20_no_injection.
+
+(* Every leaf below an included key is present as a text node (its repr, or the string itself when it is long). *)
+Theorem C20_all_leaves_present : forall o v p lk tn cn raw rep fmt,
+  sub_at v p (PLeaf lk tn cn raw rep fmt) -> path_included o p = true ->
+  In (leaf_text o lk raw rep) (texts_of (tree_view o v)).
+Proof. exact all_leaves_present. Qed.
+Print Assumptions C20_all_leaves_present.
+
+(* Every included key that the options ask to show is present as a text node. *)
+Theorem C20_all_keys_present : forall o v p sq tn cn fmt items k c t,
+  sub_at v p (PNode sq tn cn fmt items) -> assoc_key k items = Some c ->
+  path_included o (p ++ [k]) = true -> key_shown_text o sq k c = Some t ->
+  In t (texts_of (tree_view o v)).
+Proof. exact all_keys_present. Qed.
+Print Assumptions C20_all_keys_present.
+
+(* Unless summaries are switched off (enable_summary=False / enable_summary_for_str=False), every included key is shown. *)
+Theorem C20_default_summaries_show_every_key : forall o sq k c,
+  o_enable_summary o = None -> o_summary_for_str o = true -> exists t, key_shown_text o sq k c = Some t.
+Proof. exact default_keys_shown. Qed.
+Print Assumptions C20_default_summaries_show_every_key.
